@@ -279,6 +279,7 @@ func runFilteredCfg(ccfg, scfg *tls.Config, mk func(side string, n net.Conn, clo
 			rawS.Close()
 		}
 	}
+	hsTimeout = wd(hsTimeout) // idle-machine figure, scaled by the measured load (timing.go)
 	opts := tlsrig.Opts{KeepOpen: true, Timeout: hsTimeout}
 	opts.WrapClient = func(n net.Conn) net.Conn {
 		rawC = n
@@ -339,8 +340,8 @@ func runFilteredCfg(ccfg, scfg *tls.Config, mk func(side string, n net.Conn, clo
 	closeBoth()
 	select {
 	case <-done:
-	case <-time.After(5 * time.Second):
-		res.viol = append(res.viol, "Read/Write did not return within 5 s after both transports were closed")
+	case <-time.After(wd(5 * time.Second)):
+		res.viol = append(res.viol, timingViol(fmt.Sprintf("Read/Write did not return within %v after both transports were closed", wd(5*time.Second))))
 	}
 	close(panics)
 	for p := range panics {
@@ -372,8 +373,8 @@ func runFilteredCfg(ccfg, scfg *tls.Config, mk func(side string, n net.Conn, clo
 	go func() { wg2.Wait(); close(d2) }()
 	select {
 	case <-d2:
-	case <-time.After(8 * time.Second):
-		res.viol = append(res.viol, "Close / GetHandshakeLog did not return within 8 s")
+	case <-time.After(wd(8 * time.Second)):
+		res.viol = append(res.viol, timingViol(fmt.Sprintf("Close / GetHandshakeLog did not return within %v", wd(8*time.Second))))
 	}
 	close(panics2)
 	for p := range panics2 {
@@ -415,15 +416,15 @@ func runRandom(role string, stream []byte) (viol []string, tags []string) {
 	go func() { wg.Wait(); close(done) }()
 	select {
 	case <-done:
-	case <-time.After(300 * time.Millisecond):
+	case <-time.After(wd(300 * time.Millisecond)):
 		tags = append(tags, "rand:stalled-until-close")
 	}
 	a.Close()
 	b.Close()
 	select {
 	case <-done:
-	case <-time.After(5 * time.Second):
-		viol = append(viol, "Handshake did not return within 5 s after the transport was closed")
+	case <-time.After(wd(5 * time.Second)):
+		viol = append(viol, timingViol(fmt.Sprintf("Handshake did not return within %v after the transport was closed", wd(5*time.Second))))
 		return
 	}
 	close(panics)
